@@ -1,5 +1,6 @@
 import RexModel.Compiled.Schedule
 import RexModel.Compiled.Ring
+import RexModel.Compiled.BufSize
 import RexModel.Gen.Compiled
 
 /-! # C08 — input windows read exactly the scheduled messages from the output buffers
@@ -99,6 +100,47 @@ theorem C08_replay_read_live (sizes : List Nat) (cs : List Cell) (κ B : Nat) (h
     (h0 : 0 ≤ q) (hq : a ≤ q) (hlt : q < a + k) (hlive : a + k ≤ q + B) :
     ∃ r, (writeAll (sizes.map Ring.init) cs)[κ]? = some r ∧ r.readOk strict q = true :=
   replay_read_live sizes cs κ B hB hsz a k hcons q strict h0 hq hlt hlive
+
+/-! ## The computed size is enough (model of `Timings.get_buffer_sizes`, `Compiled/BufSize.lean`)
+
+`bufSize minIn maxOut` is rex's computation on the flattened (partition, generation) grid for one consumer input: suffix
+minimum of the sequence numbers read, prefix maximum of the sequence numbers written rolled by one position, largest
+difference plus one. The driver runs it on the grid of every compiled instance and the harness compares the result with
+`Timings.get_buffer_sizes` (correspondence `sched.bufsize`). -/
+
+/-- at most `bufSize` messages are ever live: a message written strictly before a grid position and a sequence number
+read at that position or later are less than `bufSize` apart -/
+theorem C08_computed_size_bounds_live (minIn maxOut : List Int) (hlen : minIn.length = maxOut.length) (u t v : Nat)
+    (hut : u < t) (htv : t ≤ v) (hv : v < minIn.length) (q W : Int)
+    (hq : minIn[v] ≤ q) (hW : W ≤ maxOut[u]'(by omega)) :
+    W - q + 1 ≤ bufSize minIn maxOut := bufSize_live minIn maxOut hlen u t v hut htv hv q W hq hW
+
+/-- **Sizing ⇒ scheduled payload.** The producer has written messages `0 … k-1` (the last one at grid position `u`),
+the consumer reads `q` (a real message, already written) at a later position `v`; with a ring of the computed size plus
+any padding the read returns message `q`. -/
+theorem C08_sized_ring_reads_scheduled (minIn maxOut : List Int) (hlen : minIn.length = maxOut.length) (u v : Nat)
+    (huv : u < v) (hv : v < minIn.length) (k : Nat) (q : Int) (pad : Nat) (strict : Bool)
+    (hlast : ((k : Int) - 1) ≤ maxOut[u]'(by omega)) (hq : minIn[v] ≤ q) (h0 : 0 ≤ q) (hlt : q < k) :
+    ((Ring.init ((bufSize minIn maxOut).toNat + pad)).writes 0 k).readOk strict q = true := by
+  have hb := bufSize_live minIn maxOut hlen u v v huv (Nat.le_refl _) hv q ((k : Int) - 1) hq hlast
+  have hpos : 0 < bufSize minIn maxOut := by omega
+  apply Ring.read_live _ (by omega) 0 k q strict h0 h0 (by omega)
+  have : ((bufSize minIn maxOut).toNat : Int) = bufSize minIn maxOut := Int.toNat_of_nonneg (by omega)
+  push_cast
+  omega
+
+/-- … and an entry without a message (-1) read at `v` still finds the default output: fewer than `size` messages were
+written before it -/
+theorem C08_sized_ring_keeps_default (minIn maxOut : List Int) (hlen : minIn.length = maxOut.length) (u v : Nat)
+    (huv : u < v) (hv : v < minIn.length) (k : Nat) (pad : Nat) (strict : Bool)
+    (hlast : ((k : Int) - 1) ≤ maxOut[u]'(by omega)) (hq : minIn[v] ≤ -1) :
+    ((Ring.init ((bufSize minIn maxOut).toNat + pad)).writes 0 k).readOk strict (-1) = true := by
+  have hb := bufSize_live minIn maxOut hlen u v v huv (Nat.le_refl _) hv (-1) ((k : Int) - 1) hq hlast
+  have hpos : 0 < bufSize minIn maxOut := by omega
+  rw [Ring.read_default _ (by omega)]
+  have : ((bufSize minIn maxOut).toNat : Int) = bufSize minIn maxOut := Int.toNat_of_nonneg (by omega)
+  simp only [decide_eq_true_eq]
+  omega
 
 /-- the ring really is tight: with one slot less than the number of live messages a read returns a *newer* message -/
 example : ((((Ring.init 2).write 0).write 1).write 2).readOk true 0 = false := by decide
